@@ -144,4 +144,6 @@ def run(ctx):
     # survives brc20_clearCaches but not a restart makes two replicas (one of them restarted) disagree
     import enginerules as ER
     ER.clause_block_info_reset(R, F, owners=("clear_caches", "finalise_block"))
+    # what a parked transaction runs with is a function of the call that carried it, not of the call that happens to unlock it
+    ER.clause_drain_own_data(R, F)
     return R
